@@ -179,6 +179,26 @@ func init() {
 			}
 			return defBytes("block_file_magic", string(b))
 		}},
+		// getWitnessChunk: the fixed file name of a witness snapshot chunk
+		{Name: "witness_snapshot_filename", Gen: func() string {
+			fd := tp().Func("", "getWitnessChunk")
+			var lits []string
+			ast.Inspect(fd.Body, func(n ast.Node) bool {
+				if kv, ok := n.(*ast.KeyValueExpr); ok {
+					if id, ok := kv.Key.(*ast.Ident); ok && id.Name == "Filepath" {
+						if bl, ok := kv.Value.(*ast.BasicLit); ok && bl.Kind == token.STRING {
+							s, _ := strconv.Unquote(bl.Value)
+							lits = append(lits, s)
+						}
+					}
+				}
+				return true
+			})
+			if len(lits) != 1 {
+				panic(fmt.Sprintf("getWitnessChunk: %d Filepath literals", len(lits)))
+			}
+			return defBytes("witness_snapshot_filename", lits[0])
+		}},
 		{Name: "snapshot_flag_filename", Gen: func() string {
 			return defBytes("snapshot_flag_filename", c15StringConst("internal/fileutil", "SnapshotFlagFilename"))
 		}},
